@@ -14,6 +14,37 @@ VERIF = os.path.dirname(os.path.dirname(os.path.abspath(__file__)))
 ALL = [f"C{i:02d}" for i in range(1, 21)]
 
 
+def isolated_run(patch, props, tier, wt):
+    """Development mode: the patch is applied in a scratch worktree `wt` (created if missing, reset
+    if present) and the checks run against it through VERIF_REPO; /repo and /verif/evidence are
+    not touched. The official validation path is the /repo one above."""
+    if not os.path.isdir(wt):
+        subprocess.run(["git", "-C", "/repo", "worktree", "add", "--detach", "-q", wt, "HEAD"], check=True)
+        subprocess.run(["cp", "/repo/Cargo.lock", wt])
+    subprocess.run(["git", "-C", wt, "checkout", "-q", "--", "."])
+    subprocess.run(["git", "-C", wt, "clean", "-fdq", "--", "src"])
+    if subprocess.run(["git", "-C", wt, "apply", patch]).returncode != 0:
+        print("patch does not apply")
+        return 2
+    env = dict(os.environ)
+    env["VERIF_REPO"] = wt
+    results = {}
+    for p in props:
+        t0 = time.time()
+        q = subprocess.run([os.path.join(VERIF, "check"), "run", p, "--tier", tier], cwd=VERIF, env=env, stdout=subprocess.PIPE, stderr=subprocess.PIPE, text=True)
+        results[p] = q.returncode
+        flag = {0: "silent", 1: "FIRES", 2: "inconclusive"}.get(q.returncode, str(q.returncode))
+        print(f"{p}: {flag} ({round(time.time() - t0, 1)}s)")
+        for l in [l for l in q.stdout.splitlines() if l.startswith(("VIOLATION", "INCONCLUSIVE", "  ["))][:3]:
+            print("     " + l[:260])
+    subprocess.run(["git", "-C", wt, "checkout", "-q", "--", "."])
+    subprocess.run(["git", "-C", wt, "clean", "-fdq", "--", "src"])
+    fired = [p for p, r in results.items() if r == 1]
+    print("fired:", ",".join(fired) or "-")
+    print(json.dumps({"patch": patch, "tier": tier, "fired": fired, "inconclusive": [p for p, r in results.items() if r == 2]}))
+    return 0
+
+
 def main():
     patch = os.path.abspath(sys.argv[1])
     props = ALL
@@ -28,6 +59,9 @@ def main():
             a = a[2:]
         else:
             a = a[1:]
+    isolated = os.environ.get("TRY_PATCH_WORKTREE", "")
+    if isolated:
+        return isolated_run(patch, props, tier, isolated)
     st = subprocess.run(["git", "-C", "/repo", "status", "--porcelain", "--untracked-files=no"], stdout=subprocess.PIPE, text=True).stdout.strip()
     if st:
         print("refusing: /repo has uncommitted changes:\n" + st)
